@@ -26,7 +26,7 @@ DEFAULT_FEATURES = {
     "refined": 4, "cls": 6, "list": 2, "annlist": 3, "tuple": 0, "union": 1, "dependent": 0, "flaky": 0,
     "weights": 0, "nested": 1, "standalone": 1, "unreachable": 1, "plain": 1, "infeasible": 0,
     "max_abstract": 3, "max_classes": 9, "max_fields": 3, "future_annotations": 0, "concrete_start": 0,
-    "base_in_list": 1, "finite": 0,
+    "base_in_list": 1, "finite": 0, "nested_generic": 0,
 }
 
 
@@ -53,8 +53,8 @@ def gen_refinement(H: Chooser, base: str, feat, finite=False):
         return ["IntList", [H.pick([-7, 0, 1, 2, 3, 42, 1000]) for _ in range(n)]]
     if base == "float":
         if H.draw(2) and not finite:
-            lo = H.pick([0.0, -1.0, 0.5, 10.0])
-            return ["FloatRange", lo, lo + H.pick([0.0, 1.0, 0.25, 100.0])]
+            lo = H.pick([0.0, -1.0, 0.5, 10.0, 0, 1, -3])  # integer literals too, as in geml/grammars/sgp.py
+            return ["FloatRange", lo, lo + H.pick([0.0, 1.0, 0.25, 100.0, 9, 1])]
         n = 1 + H.draw(3)
         return ["FloatList", [H.pick([0.0, -1.5, 0.1, 2.0, 1e-9]) for _ in range(n)]]
     if base == "str":
@@ -124,7 +124,18 @@ def gen_type(H: Chooser, feat, refs, level=0, allow_dependent_on=None, finite=Fa
     if k == "cls":
         return ["cls", H.pick(refs)]
     if k in ("list", "annlist"):
-        if refs and feat["cls"] and (H.draw(3) or not feat["base_in_list"]):
+        if feat.get("nested_generic") and refs and H.draw(4) < feat["nested_generic"]:
+            # a union or tuple as the element type: list[Union[A, int]], Annotated[list[tuple[A, B]], ...]
+            parts = [["cls", H.pick(refs)]] + [H.pick([["cls", H.pick(refs)], ["bool"], ["int"]]) for _ in range(1 + H.draw(2))]
+            if H.draw(2):
+                alts = []
+                for x in parts:
+                    if x not in alts:
+                        alts.append(x)
+                inner = ["union", alts] if len(alts) > 1 else alts[0]
+            else:
+                inner = ["tuple", parts]
+        elif refs and feat["cls"] and (H.draw(3) or not feat["base_in_list"]):
             inner = ["cls", H.pick(refs)]
         elif feat["refined"] and H.draw(2):
             inner = ["ann", ["int"], gen_refinement(H, "int", feat, finite)]
